@@ -2,12 +2,23 @@
 what the API reports (goes back to TLC for the post-condition of C03 at every member distribution /
 support vertex) and run the independent float oracle: the primal moment problem (an LP over
 distributions on support vertices) for the worst-case expectation at the returned solution (C03), and
-a cutting-plane loop around it for the true optimum under the declared adaptation (C04)."""
+a cutting-plane loop around it for the true optimum under the declared adaptation (C04).
+
+Lifted supports (auxiliary random variables u, kinds 9-12 of DroSem.tla): the oracle enumerates the vertices and the
+extreme rays of the lifted support polyhedra itself (harness/liftpoly.py, from its own half-space transcription of the
+declared sets) - a distribution is then a mass on vertices plus "ray masses" that add to the moments and (through the
+recession slope of the integrand) to the expectation, but not to the probability.  Non-polyhedral sets (2-norm
+Wasserstein supports, KL / 2-norm probability sets) are sandwiched: an INNER description (subset of the declared
+set) and an OUTER one; C03 uses the inner worst case (<= true worst case), C04 the outer optimum (>= true optimum)."""
 import math
 
 import numpy as np
 
+from harness import liftpoly
+
 DEN = 60.0
+INF = 100000
+AFF_MASK = {'a0': [], 'a1': [0], 'a12': [0, 1], 'au': [2, 3], 'a12u': [0, 1, 2, 3]}     # rule components: z1 z2 u1 u2
 
 
 def piece_expr(pc, x, z):
@@ -40,7 +51,13 @@ def build(job):
     labels = None if var % 2 == 0 else (list(range(1, ns + 1)) if var % 4 == 3 else ['s%d' % k for k in range(ns)])
     m = dro.Model(ns) if labels is None else dro.Model(labels)
     lab = (lambda s: s) if labels is None else (lambda s: labels[s])
+    nu = liftpoly.nu_of(p['supp'])
+    u = None
+    if nu and var % 4 >= 2:
+        u = m.rvar() if nu == 1 else m.rvar(nu)        # the auxiliary variable declared BEFORE z: other columns
     z = m.rvar(2)
+    if nu and u is None:
+        u = m.rvar() if nu == 1 else m.rvar(nu)
     x = m.dvar(vtype='I' if p['xint'] else 'C')
     y = None
     if p['form'] == 'A':
@@ -54,6 +71,13 @@ def build(job):
             y.adapt(z[0])
         elif p['aff'] == 'a12':
             y.adapt(z)
+        elif p['aff'] == 'au':
+            y.adapt(u)
+        elif p['aff'] == 'a12u':
+            if var % 2:
+                y.adapt(u); y.adapt(z)
+            else:
+                y.adapt(z); y.adapt(u)
         # an unrelated decision declared AFTER the adaptive one (static, or event-wise on another partition): the column
         # arithmetic of the event-wise affine expansion must not depend on which variable happens to be declared last
         if var % 3 == 1:
@@ -66,6 +90,26 @@ def build(job):
             dummy = None
     fset = m.ambiguity()
     cen = [np.array(c, dtype=float) for c in rec['centres']]
+    # rows with their OWN support (constraint.forall(...)): a second ambiguity set of the same model (it must exist before
+    # the first constraint), or a list / tuple of support constraints (the common box, kind 3)
+    rk = p.get('rsupp', 0)
+    rowsup = None
+    if rk:
+        if rk == 3 and var % 3:
+            rowsup = [z >= -2, z <= 2] if var % 3 == 1 else (z >= -2, z <= 2)
+        else:
+            rowsup = m.ambiguity()
+            for s in range(ns):
+                if rk == 1:
+                    rowsup[lab(s)].suppset(z == cen[s])
+                elif rk == 2:
+                    rowsup[lab(s)].suppset(z >= cen[s] - 1, z <= cen[s] + 1)
+                elif rk == 8:
+                    rowsup[lab(s)].suppset(z >= cen[s] - np.array([s + 1.0, 1.0]), z <= cen[s] + np.array([s + 1.0, 1.0]))
+                elif rk == 4:
+                    rowsup[lab(s)].suppset(rso.norm(z - cen[s], 1) <= 1)
+            if rk == 3:
+                rowsup.suppset(z >= -2, z <= 2)
     k = p['supp']
     for s in range(ns):
         if k == 1 or (k == 6 and s == 0):
@@ -82,6 +126,14 @@ def build(job):
             fset[lab(s)].suppset(cons)
         elif k == 4:
             fset[lab(s)].suppset(rso.norm(z - cen[s], 1) <= 1)
+        elif k == 9:          # mean absolute deviation: |z - c| <= u componentwise, u unbounded above
+            fset[lab(s)].suppset(z >= cen[s] - 1, z <= cen[s] + 1, abs(z - cen[s]) <= u)
+        elif k in (10, 11, 12):   # Wasserstein-style: scenario = sample zhat_s, distance to it bounded by u
+            L = liftpoly.LIFTED[k]
+            cons = [z >= -L['box'], z <= L['box'], rso.norm(z - cen[s], L['norm']) <= u]
+            if 'ucap' in L:
+                cons.append(u <= L['ucap'])
+            fset[lab(s)].suppset(cons) if var % 3 == 2 else fset[lab(s)].suppset(*cons)
     if k == 3:
         fset.suppset(z >= -2, z <= 2)
     elif k == 5:
@@ -96,13 +148,24 @@ def build(job):
         fset.probset(pr <= 0.6)
     elif p['prob'] == 5:
         fset.probset(rso.norm(pr - 1.0 / ns, 1) <= 0.4)
+    elif p['prob'] in liftpoly.PROBSETS:
+        P = liftpoly.PROBSETS[p['prob']]
+        phat = liftpoly.phat_of(p['prob'], ns)
+        if P['type'] == 'kl':
+            fset.probset(rso.kldiv(pr, phat, P['r']))
+        elif var % 2:
+            fset.probset(rso.norm(pr - phat, 2) <= P['r'])
+        else:
+            fset.probset(rso.norm(pr - phat) <= P['r'])
     for ex in rec['expts']:
         ev = [s - 1 for s in ex['ev']]
         target = fset if len(ev) == ns else (fset[lab(ev[0])] if len(ev) == 1 else fset[[lab(s) for s in ev]])
         cons = []
-        lo = np.array(ex['lo2'], dtype=float) / 2.0
-        hi = np.array(ex['hi2'], dtype=float) / 2.0
-        if np.all(lo < hi) and var % 2 == 0:
+        lo = np.array(ex['lo2'][:2], dtype=float) / 2.0
+        hi = np.array(ex['hi2'][:2], dtype=float) / 2.0
+        if abs(ex['lo2'][0]) >= INF:
+            pass                                            # no information on z in this set
+        elif np.all(lo < hi) and var % 2 == 0:
             cons = [E(z) >= lo, E(z) <= hi]                 # whole-array form
         else:
             for c in range(2):
@@ -113,6 +176,19 @@ def build(job):
                 else:
                     cons.append(1.0 * E(z[c]) >= lo[c])
                     cons.append(1.0 * E(z[c]) <= hi[c])
+        if ex.get('norm'):
+            mu = np.array(ex['mu2'], dtype=float) / 2.0
+            nm = {1: 1, 2: 2, 3: 'inf'}[ex['norm']]
+            if ex['norm'] == 2 and var % 2 == 0:
+                cons.append(rso.norm(E(z) - mu) <= ex['r2'] / 2.0)
+            else:
+                cons.append(rso.norm(E(z) - mu, nm) <= ex['r2'] / 2.0)
+        if nu and ex['hi2'][2] < INF:
+            uh = ex['hi2'][2] / 2.0
+            if nu == 1 or var % 2 == 0:
+                cons.append(E(u) <= uh)
+            else:
+                cons.extend([1.0 * E(u[c]) <= uh for c in range(nu)])
         target.exptset(cons) if var % 3 else target.exptset(*cons)
     xb = job['XB']
     m.st(x >= -xb, x <= xb)
@@ -121,93 +197,199 @@ def build(job):
     p1, p2 = rec['piece1'], rec['piece2']
     if p['form'] == 'B':
         m.minsup(E(rso.maxof(piece_expr(p1, x, z), piece_expr(p2, x, z))), fset)
+    elif p['form'] == 'C':
+        m.minsup(rso.maxof(piece_expr(p1, x, z), piece_expr(p2, x, z)), fset)       # piecewise objective WITHOUT expectation
     else:
         m.minsup(E(y), fset)
-        m.st(y >= piece_expr(p1, x, z), y >= piece_expr(p2, x, z))
+        if rowsup is None:
+            m.st(y >= piece_expr(p1, x, z), y >= piece_expr(p2, x, z))
+        else:
+            m.st((y >= piece_expr(p1, x, z)).forall(rowsup), (y >= piece_expr(p2, x, z)).forall(rowsup))
     if p['econ']:
         m.st(E(piece_expr(rec['econ'], x, z)) <= 0)
-    return m, dict(x=x, y=y, z=z, labels=labels)
+    return m, dict(x=x, y=y, z=z, u=u, nu=nu, labels=labels)
 
 
 # ------------------------------------------------------------------------------------------ oracle
 
-class Moment:
-    """Worst-case expectation of scenario-wise values F[s][j] (value at vertex j of scenario s) over the
-    ambiguity set: LP over q_{s,j} >= 0 and lambda (convex weights of the probability-set vertices)."""
+def is_sandwich(rec):
+    p = rec['prog']
+    return p['supp'] == 12 or p['prob'] in liftpoly.PROBSETS or any(ex.get('norm') == 2 for ex in rec['expts'])
 
-    def __init__(self, rec):
+
+def geometry(rec, side='inner'):
+    """What the oracle integrates over: per scenario the vertices and extreme rays of the (lifted) support, and the
+    vertices of the probability set.  side = 'inner' | 'outer' differ only for the sandwiched (non-polyhedral) kinds."""
+    p = rec['prog']
+    ns = p['ns']
+    k = 0 if side == 'inner' else 1
+    if p['supp'] in liftpoly.LIFTED:
+        L = [liftpoly.lifted(p['supp'], s, rec['centres'])[k] for s in range(ns)]
+        verts = [np.array(P['verts'], dtype=float) for P in L]
+        rays = [np.array(P['rays'], dtype=float) for P in L]
+    else:
+        verts = [np.array(v, dtype=float) for v in rec['verts']]
+        rays = [np.zeros((0, 2)) for _ in range(ns)]
+    if p['prob'] in liftpoly.PROBSETS:
+        pv = liftpoly.prob_polygon(p['prob'], ns)[k]
+    else:
+        pv = np.array(rec['pverts'], dtype=float) / DEN
+    return dict(verts=verts, rays=rays, pv=np.array(pv, dtype=float), dim=verts[0].shape[1], side=side)
+
+
+class Moment:
+    """Worst-case expectation of scenario-wise values F[s][j] (value at vertex j of scenario s; recession slope
+    Fr[s][k] along extreme ray k) over the ambiguity set: LP over vertex masses q_{s,j} >= 0, ray masses
+    r_{s,k} >= 0 (they carry moments, not probability) and lambda (convex weights of the probability-set vertices)."""
+
+    def __init__(self, rec, G=None):
         p = rec['prog']
+        G = G or geometry(rec)
+        self.G = G
         self.ns = p['ns']
-        self.verts = [np.array(v, dtype=float) for v in rec['verts']]
-        self.pv = np.array(rec['pverts'], dtype=float) / DEN          # (nv, ns)
+        self.verts = G['verts']
+        self.rays = G['rays']
+        self.dim = G['dim']
+        self.pv = G['pv']                                             # (nv, ns)
         self.nq = [len(v) for v in self.verts]
         self.off = np.cumsum([0] + self.nq)
         self.nQ = int(self.off[-1])
+        self.nr = [len(r) for r in self.rays]
+        self.roff = self.nQ + np.cumsum([0] + self.nr)
+        self.nR = int(sum(self.nr))
         self.nl = len(self.pv)
-        n = self.nQ + self.nl
+        self.il = self.nQ + self.nR
+        n = self.il + self.nl
+        self.n = n
+        for R in self.rays:
+            if len(R) and (np.any(np.abs(R[:, :2]) > 1e-12) or np.any(R < -1e-12)):
+                raise AssertionError('oracle: a recession direction of a lifted support moves z or decreases u: %r' % (R,))
+        # a ray is "free" when no expectation set bounds the moment it increases: then only integrands that do not
+        # increase along it have a finite worst case
+        self.ray_free = [[True] * k for k in self.nr]
         Aeq, beq, Aub, bub = [], [], [], []
         for s in range(self.ns):         # sum_j q_sj = p_s = sum_k lambda_k pv[k][s]
             row = np.zeros(n)
             row[self.off[s]:self.off[s + 1]] = 1.0
-            row[self.nQ:] = -self.pv[:, s]
+            row[self.il:] = -self.pv[:, s]
             Aeq.append(row); beq.append(0.0)
-        row = np.zeros(n); row[self.nQ:] = 1.0
+        row = np.zeros(n); row[self.il:] = 1.0
         Aeq.append(row); beq.append(1.0)
         for ex in rec['expts']:
             ev = [s - 1 for s in ex['ev']]
-            for c in range(2):
-                lo, hi = ex['lo2'][c] / 2.0, ex['hi2'][c] / 2.0
+            for c in range(self.dim):
+                lo2, hi2 = ex['lo2'][c], ex['hi2'][c]
+                if lo2 <= -INF and hi2 >= INF:
+                    continue
                 mrow = np.zeros(n)
                 prow = np.zeros(n)
                 for s in ev:
                     mrow[self.off[s]:self.off[s + 1]] = self.verts[s][:, c]
-                    prow[self.nQ:] += self.pv[:, s]
-                if lo == hi:
+                    if self.nr[s]:
+                        mrow[self.roff[s]:self.roff[s + 1]] = self.rays[s][:, c]
+                    prow[self.il:] += self.pv[:, s]
+                    if hi2 < INF:
+                        for k in range(self.nr[s]):
+                            # bounded if every component the ray increases is bounded: single-component rays here
+                            if self.rays[s][k, c] > 1e-12 and np.count_nonzero(np.abs(self.rays[s][k]) > 1e-12) == 1:
+                                self.ray_free[s][k] = False
+                lo, hi = lo2 / 2.0, hi2 / 2.0
+                if lo2 == hi2:
                     Aeq.append(mrow - lo * prow); beq.append(0.0)
                 else:
-                    Aub.append(mrow - hi * prow); bub.append(0.0)
-                    Aub.append(lo * prow - mrow); bub.append(0.0)
+                    if hi2 < INF:
+                        Aub.append(mrow - hi * prow); bub.append(0.0)
+                    if lo2 > -INF:
+                        Aub.append(lo * prow - mrow); bub.append(0.0)
+            if ex.get('norm'):
+                # || m - mu P || <= r P with m = moment of z over the event, P = probability of the event (perspective form)
+                mu = np.array(ex['mu2'], dtype=float) / 2.0
+                r = ex['r2'] / 2.0
+                drow = []
+                prow = np.zeros(n)
+                for s in ev:
+                    prow[self.il:] += self.pv[:, s]
+                for c in range(2):
+                    mrow = np.zeros(n)
+                    for s in ev:
+                        mrow[self.off[s]:self.off[s + 1]] = self.verts[s][:, c]
+                    drow.append(mrow - mu[c] * prow)
+                if ex['norm'] == 1:
+                    dirs, rad = [(a, b_) for a in (1.0, -1.0) for b_ in (1.0, -1.0)], r
+                elif ex['norm'] == 3:
+                    dirs, rad = [(1.0, 0.0), (-1.0, 0.0), (0.0, 1.0), (0.0, -1.0)], r
+                else:
+                    # the disc between an inscribed (inner description) and a circumscribed (outer) regular polygon
+                    K = 64
+                    dirs = [(math.cos(2 * math.pi * k / K), math.sin(2 * math.pi * k / K)) for k in range(K)]
+                    rad = r * math.cos(math.pi / K) if G.get('side', 'inner') == 'inner' else r
+                for g in dirs:
+                    Aub.append(g[0] * drow[0] + g[1] * drow[1] - rad * prow); bub.append(0.0)
         self.Aeq, self.beq = np.array(Aeq), np.array(beq)
         self.Aub = np.array(Aub) if Aub else None
         self.bub = np.array(bub) if bub else None
 
-    def worst(self, F):
+    def worst(self, F, Fr=None):
+        """(value, q, r): value = +inf when the integrand increases along a free ray."""
         from scipy.optimize import linprog
-        c = np.zeros(self.nQ + self.nl)
+        c = np.zeros(self.n)
         c[:self.nQ] = -np.concatenate([np.asarray(f, dtype=float) for f in F])
-        res = linprog(c, A_ub=self.Aub, b_ub=self.bub, A_eq=self.Aeq, b_eq=self.beq, bounds=[(0, None)] * len(c))
+        bounds = [(0, None)] * self.n
+        for s in range(self.ns):
+            for k in range(self.nr[s]):
+                sl = 0.0 if Fr is None else float(Fr[s][k])
+                j = int(self.roff[s]) + k
+                if self.ray_free[s][k]:
+                    if sl > 1e-5:
+                        return float('inf'), None, None
+                    bounds[j] = (0, 0)
+                else:
+                    c[j] = -sl
+        res = linprog(c, A_ub=self.Aub, b_ub=self.bub, A_eq=self.Aeq, b_eq=self.beq, bounds=bounds)
+        if res.status == 3:
+            raise AssertionError('oracle: moment LP unbounded although every free ray is closed')
         if res.status != 0:
-            return None, None
-        return -float(res.fun), res.x[:self.nQ]
+            return None, None, None
+        return -float(res.fun), res.x[:self.nQ], res.x[self.nQ:self.il]
 
 
-def true_optimum(rec, xb):
+NRULE = 5          # y0, Y(z1), Y(z2), Y(u1), Y(u2)
+
+
+def true_optimum(rec, xb, G=None):
     """Cutting planes: min over (x, rule of y) of the worst-case expectation. Returns dict(status, val)."""
     from scipy.optimize import linprog, milp, LinearConstraint, Bounds
     p = rec['prog']
-    mo = Moment(rec)
+    mo = Moment(rec, G)
     ns = p['ns']
+    dim = mo.dim
     ev = rec['events']
     nev = max(ev)
     p1, p2, pe = rec['piece1'], rec['piece2'], rec['econ']
     formA = p['form'] == 'A'
-    mask = {'a0': [], 'a1': [0], 'a12': [0, 1]}[p['aff']]
-    # variables: x | y0_e, Y_e1, Y_e2 (e = 1..nev)  or  u_{s,j} | t
+    formC = p['form'] == 'C'
+    rverts = [np.array(v, dtype=float) for v in rec['rverts']] if p.get('rsupp', 0) else None       # the rows' own support
+    if rverts is not None and (not formA or any(mo.nr)):
+        raise AssertionError('oracle: rows with their own support are form A on plain supports')
+    mask = [c for c in AFF_MASK[p['aff']] if c < dim]
+    # variables: x | y0_e, Y_e1, Y_e2, U_e1, U_e2 (e = 1..nev)  or  f_{s,j} (epigraph value at vertex j) | t
     if formA:
-        ny = 3 * nev
-        nu = 0
+        ny = NRULE * nev
+        nu_ = 0
+    elif formC:
+        ny = nu_ = 0          # x | t:  t >= piece_l(x, v) at every vertex of every scenario
     else:
         ny = 0
-        nu = mo.nQ
-    n = 1 + ny + nu + 1
+        nu_ = mo.nQ
+    n = 1 + ny + nu_ + 1
     it = n - 1
     lb = np.full(n, -np.inf); ub = np.full(n, np.inf)
     lb[0], ub[0] = -xb, xb
     if formA:
         for e in range(nev):
-            for c in range(2):
+            for c in range(NRULE - 1):
                 if c not in mask:
-                    lb[1 + 3 * e + 1 + c] = ub[1 + 3 * e + 1 + c] = 0.0
+                    lb[1 + NRULE * e + 1 + c] = ub[1 + NRULE * e + 1 + c] = 0.0
 
     def lin_piece(pc, v):          # coefficient on x and constant of piece at vertex v
         return pc['ax'] + pc['axz'][0] * v[0] + pc['axz'][1] * v[1], pc['az'][0] * v[0] + pc['az'][1] * v[1] + pc['b']
@@ -215,37 +397,53 @@ def true_optimum(rec, xb):
     def yrow(s, v):                # coefficients of y_s(v) on the variable vector
         r = np.zeros(n)
         e = ev[s] - 1
-        r[1 + 3 * e] = 1.0
-        r[1 + 3 * e + 1] = v[0]
-        r[1 + 3 * e + 2] = v[1]
+        r[1 + NRULE * e] = 1.0
+        for c in range(len(v)):
+            r[1 + NRULE * e + 1 + c] = v[c]
+        return r
+
+    def yray(s, d):                # recession slope of y_s along direction d
+        r = np.zeros(n)
+        e = ev[s] - 1
+        for c in range(dim):
+            r[1 + NRULE * e + 1 + c] = d[c]
         return r
 
     A, b = [], []
     for s in range(ns):
-        for j, v in enumerate(mo.verts[s]):
+        for j, v in enumerate(mo.verts[s] if rverts is None else rverts[s]):
             for pc in (p1, p2):
                 cx, c0 = lin_piece(pc, v)
                 row = np.zeros(n)
                 row[0] = cx
                 if formA:
                     row -= yrow(s, v)
+                elif formC:
+                    row[it] = -1.0
                 else:
                     row[1 + mo.off[s] + j] = -1.0
                 A.append(row); b.append(-c0)
+        if formA:
+            for k, d in enumerate(mo.rays[s]):
+                A.append(-yray(s, d)); b.append(0.0)          # rows hold along the ray (pieces do not move: d_z = 0)
+                if mo.ray_free[s][k]:
+                    A.append(yray(s, d)); b.append(0.0)       # finite worst-case expectation
 
     def Fvals(theta):
-        out = []
+        out, outr = [], []
         for s in range(ns):
             if formA:
                 out.append([float(yrow(s, v) @ theta) for v in mo.verts[s]])
+                outr.append([float(yray(s, d) @ theta) for d in mo.rays[s]])
             else:
                 out.append([float(theta[1 + mo.off[s] + j]) for j in range(mo.nq[s])])
-        return out
+                outr.append([0.0] * mo.nr[s])
+        return out, outr
 
     def Hvals(theta):
         return [[piece_val(pe, theta[0], v) for v in mo.verts[s]] for s in range(ns)]
 
-    def cut_obj(q):
+    def cut_obj(q, rm):
         row = np.zeros(n)
         for s in range(ns):
             for j, v in enumerate(mo.verts[s]):
@@ -255,6 +453,11 @@ def true_optimum(rec, xb):
                         row += w * yrow(s, v)
                     else:
                         row[1 + mo.off[s] + j] += w
+            if formA:
+                for k, d in enumerate(mo.rays[s]):
+                    w = rm[int(mo.roff[s]) - mo.nQ + k]
+                    if w:
+                        row += w * yray(s, d)
         row[it] = -1.0
         return row, 0.0
 
@@ -269,15 +472,16 @@ def true_optimum(rec, xb):
         return row, -c0
 
     # initial cut: any feasible distribution
-    val0, q0 = mo.worst([[0.0] * k for k in mo.nq])
+    val0, q0, r0 = mo.worst([[0.0] * k for k in mo.nq])
     if q0 is None:
         return dict(status='ambiguity-empty')
-    r, c = cut_obj(q0); A.append(r); b.append(c)
+    if not formC:
+        r, c = cut_obj(q0, r0); A.append(r); b.append(c)
     if p['econ']:
         r, c = cut_econ(q0); A.append(r); b.append(c)
     cvec = np.zeros(n); cvec[it] = 1.0
     integ = np.zeros(n); integ[0] = 1.0 if p['xint'] else 0.0
-    for _ in range(60):
+    for _ in range(120):
         if p['xint']:
             res = milp(cvec, constraints=[LinearConstraint(np.array(A), -np.inf, np.array(b))], bounds=Bounds(lb, ub), integrality=integ)
         else:
@@ -293,13 +497,17 @@ def true_optimum(rec, xb):
             return dict(status='other:%s' % res.status)
         theta = res.x
         added = False
-        w, q = mo.worst(Fvals(theta))
-        if w is None:
-            return dict(status='ambiguity-empty')
-        if w > theta[it] + 1e-8 * (1 + abs(w)):
-            r, c = cut_obj(q); A.append(r); b.append(c); added = True
+        if not formC:
+            Fv, Frv = Fvals(theta)
+            w, q, rm = mo.worst(Fv, Frv)
+            if w is None:
+                return dict(status='ambiguity-empty')
+            if not math.isfinite(w):
+                raise AssertionError('oracle: master returned a rule that increases along a free ray')
+            if w > theta[it] + 1e-8 * (1 + abs(w)):
+                r, c = cut_obj(q, rm); A.append(r); b.append(c); added = True
         if p['econ']:
-            wh, qh = mo.worst(Hvals(theta))
+            wh, qh, _ = mo.worst(Hvals(theta))
             if wh > 1e-8:
                 r, c = cut_econ(qh); A.append(r); b.append(c); added = True
         if not added:
@@ -307,19 +515,28 @@ def true_optimum(rec, xb):
     return dict(status='no-convergence')
 
 
-def worst_at_solution(rec, x, ys):
+def worst_at_solution(rec, x, ys, G=None):
     """(worst-case expected objective, worst-case expectation of the E-constraint) at the returned solution."""
     p = rec['prog']
-    mo = Moment(rec)
+    mo = Moment(rec, G)
     p1, p2, pe = rec['piece1'], rec['piece2'], rec['econ']
+    dim = mo.dim
+    Fr = None
     if p['form'] == 'A':
-        F = [[ys[s][0] + ys[s][1] * v[0] + ys[s][2] * v[1] for v in mo.verts[s]] for s in range(p['ns'])]
+        F = [[ys[s][0] + sum(ys[s][1 + c] * v[c] for c in range(dim)) for v in mo.verts[s]] for s in range(p['ns'])]
+        Fr = [[sum(ys[s][1 + c] * d[c] for c in range(dim)) for d in mo.rays[s]] for s in range(p['ns'])]
     else:
         F = [[max(piece_val(p1, x, v), piece_val(p2, x, v)) for v in mo.verts[s]] for s in range(p['ns'])]
-    w, _ = mo.worst(F)
+    if p['form'] == 'C':
+        if mo.worst([[0.0] * k for k in mo.nq])[0] is None:
+            w = None
+        else:
+            w = max(max(f) for f in F)        # no expectation: the worst realisation of any scenario
+    else:
+        w, _, _ = mo.worst(F, Fr)
     wh = None
     if p['econ']:
-        wh, _ = mo.worst([[piece_val(pe, x, v) for v in mo.verts[s]] for s in range(p['ns'])])
+        wh, _, _ = mo.worst([[piece_val(pe, x, v) for v in mo.verts[s]] for s in range(p['ns'])])
     return w, wh
 
 
@@ -332,17 +549,50 @@ def _replay(job, phase):
     phase[0] = 'build'
     m, h = build(job)
     phase[0] = 'solve'
-    if job['solver'] == 'def':
-        m.solve(display=False)
-    else:
-        import importlib
-        m.solve(importlib.import_module('rsome.%s_solver' % job['solver']), display=False)
+    def solve_with(name):
+        if name == 'def':
+            m.solve(display=False)
+        else:
+            import importlib
+            # Gurobi on cone programs: never wait for ever
+            m.solve(importlib.import_module('rsome.%s_solver' % name), display=False,
+                    params={'TimeLimit': 10} if name == 'grb' and (is_sandwich(rec) or h['nu']) else {})
+    try:
+        solve_with(job['solver'])
+    except Exception as e:
+        # the restricted Gurobi licence refuses the larger lifted programs: not a property of the library - use another interface
+        if job['solver'] == 'grb' and type(e).__name__ == 'GurobiError' and 'size-limited' in str(e):
+            out['solver'] = 'eco' if (p['supp'] == 12 or p['prob'] in (7, 9)) else 'def'
+            out['licence_fallback'] = True
+            solve_with(out['solver'])
+        else:
+            raise
     ok = m.solution is not None and not (isinstance(m.solution.objval, float) and math.isnan(m.solution.objval))
+    if not ok and job['solver'] == 'eco' and p['prob'] in (6, 8):
+        # ECOS gives up ("numerical problems") on most KL programs with lifted supports and adaptive decisions; the
+        # library's own second-order-cone approximation of the exponential cones (soc_solve) is a second public route
+        # to an answer.  Size-limited Gurobi licence: only the smaller programs go through.
+        st = str(getattr(m.solution, 'status', None)).lower()
+        if 'infeasible' not in st and 'unbounded' not in st:
+            out['first_status'] = st
+            try:
+                import rsome.grb_solver as grb
+                m.soc_solve(grb, display=False, params={'TimeLimit': 10})
+                ok2 = m.solution is not None and not (isinstance(m.solution.objval, float) and math.isnan(m.solution.objval))
+            except Exception as e:
+                out['soc_fallback_error'] = '%s: %s' % (type(e).__name__, str(e)[:80])
+                ok2 = False
+            if ok2:
+                ok = True
+                out['solver'] = 'soc-grb'
+            else:
+                m.solution = None
     phase[0] = 'read'
     if ok:
         xv = h['x'].get()
         xv = float(np.array(xv.iloc[0] if isinstance(xv, pd.Series) else xv).reshape(-1)[0])
-        ys = [[0.0, 0.0, 0.0] for _ in range(ns)]
+        ys = [[0.0] * NRULE for _ in range(ns)]
+        nans = [None] * ns
         labelled = None
         if h['y'] is not None:
             y0 = h['y'].get()
@@ -353,22 +603,34 @@ def _replay(job, phase):
             else:
                 for s in range(ns):
                     ys[s][0] = float(np.array(y0).reshape(-1)[0])
-            if p['aff'] != 'a0':
+            if p['aff'] in ('a1', 'a12', 'a12u'):
                 yc = h['y'].get(h['z'])
                 for s in range(ns):
                     arr = np.array(yc.iloc[s] if isinstance(yc, pd.Series) else yc, dtype=float).reshape(-1)
                     for c in range(2):
                         ys[s][1 + c] = 0.0 if np.isnan(arr[c]) else float(arr[c])
-                    ys[s].append([bool(np.isnan(a)) for a in arr])
-        out.update(status='ok', x=xv, obj=float(m.get()), ys=[y[:3] for y in ys], nan=[y[3] if len(y) > 3 else None for y in ys], labelled=labelled)
+                    nans[s] = [bool(np.isnan(a)) for a in arr]
+            if p['aff'] in ('au', 'a12u'):
+                yu = h['y'].get(h['u'])
+                for s in range(ns):
+                    arr = np.array(yu.iloc[s] if isinstance(yu, pd.Series) else yu, dtype=float).reshape(-1)
+                    if len(arr) != h['nu']:
+                        raise AssertionError('y.get(u): %d coefficients for %d auxiliary variables' % (len(arr), h['nu']))
+                    for c in range(h['nu']):
+                        ys[s][3 + c] = 0.0 if np.isnan(arr[c]) else float(arr[c])
+        out.update(status='ok', x=xv, obj=float(m.get()), ys=ys, nan=nans, labelled=labelled)
         phase[0] = 'oracle'
-        w, wh = worst_at_solution(rec, xv, [y[:3] for y in ys])
+        w, wh = worst_at_solution(rec, xv, ys, geometry(rec, 'inner'))
         out['wce'] = w
         out['wce_econ'] = wh
     else:
-        out.update(status='fail', solver_status=str(getattr(m.solution, 'status', None)))
+        out.update(status='fail', solver_status=out.get('first_status') or str(getattr(m.solution, 'status', None)))
     phase[0] = 'oracle'
-    out['opt'] = true_optimum(rec, job['XB'])
+    # opt: optimum over the inner description (<= true inf-sup), opt_hi: over the outer one (>= true inf-sup);
+    # the same thing unless the program has a sandwiched (non-polyhedral) set
+    out['opt'] = true_optimum(rec, job['XB'], geometry(rec, 'inner'))
+    out['opt_hi'] = true_optimum(rec, job['XB'], geometry(rec, 'outer')) if is_sandwich(rec) else out['opt']
+    out['sandwich'] = is_sandwich(rec)
     return out
 
 
